@@ -28,6 +28,8 @@ import (
 var extraC11Exec = map[string]h.ExecFn{
 	"go.adnl.concurrent": goAdnlConcurrent,
 	"go.adnl.coalesced":  goAdnlCoalesced,
+	"go.adnl.magics":     goAdnlMagics,
+	"adnl.reader":        func(a []string) string { return "bad-op" }, // model-only op (asked by go.adnl.magics)
 }
 
 func init() {
